@@ -666,9 +666,11 @@ fn run_case(cx: &mut Ctx<'_>, r: &mut Rng, case: usize) {
                     break;
                 }
             }
-        } else {
+        } else if choice < 96 {
             // ------------------------------------------------------------------ probes on a copy
             probe(cx, r, &orc, s, e);
+        } else {
+            reprobe(cx, r, &orc, s, e);
         }
         // after every operation: what a reopen with the current range would return, on a copy
         if let Some(l) = log.as_ref() {
@@ -849,6 +851,62 @@ fn crash_probes(cx: &mut Ctx<'_>, r: &mut Rng, orc: &Oracle, op: &Op, s: u64, e:
             OpenOut::Panic => cx.out.fail(format!("C03 seglog open panicked on a crash image: {line}")),
         }
     }
+}
+
+/// power-loss image of recovery itself: `open(s, e')` with `e' < e` completes on a copy (tail segments unlinked newest
+/// first, head cut and fsynced), then a prefix of the tail segments — the unlinks issued last — comes back (no directory
+/// fsync covers them); `open(s, e')` again must return the same records
+fn reprobe(cx: &mut Ctx<'_>, r: &mut Rng, orc: &Oracle, s: u64, e: u64) {
+    if e == 0 || s.max(orc.lo) > e {
+        return;
+    }
+    let e2 = r.range(s.max(orc.lo) as usize, e as usize) as u64;
+    copy_dir(&cx.main, &cx.scratch);
+    let before = seg_files(&cx.scratch);
+    arm(None);
+    let first = real_open(&cx.scratch, cx.maxseg, s, e2);
+    let _ = take_trace();
+    let recs1 = match first {
+        OpenOut::Ok(l, recs) => {
+            drop(l);
+            recs
+        }
+        _ => {
+            cx.out.fail(format!("C03 seglog open({s},{e2}) failed on a consistent directory with range {s},{e}"));
+            return;
+        }
+    };
+    let after = seg_files(&cx.scratch);
+    let last_kept = after.last().map(|x| x.0).unwrap_or(0);
+    // the removed tail segments, oldest first; the ones unlinked LAST are the lowest ids: bring back a prefix
+    let removed_tail: Vec<u64> = before.iter().map(|x| x.0).filter(|id| *id > last_kept).collect();
+    let back = r.range(0, removed_tail.len());
+    let ids: Vec<u64> = removed_tail[..back].to_vec();
+    for id in &ids {
+        std::fs::copy(seg_path(&cx.main, *id), seg_path(&cx.scratch, *id)).unwrap();
+    }
+    arm(None);
+    let o = real_open(&cx.scratch, cx.maxseg, s, e2);
+    let tr = take_trace();
+    let scratch = cx.scratch.clone();
+    let ids_s = if ids.is_empty() { "-".to_string() } else { ids.iter().map(|x| x.to_string()).collect::<Vec<_>>().join(".") };
+    let line = format!("reprobe {s} {e2} {ids_s}");
+    cx.out.line(line.clone(), open_answer(&o, Some(&tr), &scratch));
+    cx.out.count("reprobe");
+    cx.out.add("reprobe_segments_back", ids.len() as u64);
+    match &o {
+        OpenOut::Ok(_, recs) => {
+            if recs_str(recs) != recs_str(&recs1) {
+                cx.out.fail(format!("C04 seglog second recovery returned other records: {line}"));
+            }
+            let mut all = orc.all.clone();
+            all.retain(|id, _| *id <= e2);
+            orc.check_open(cx.out, "C04", &line, recs, s, e2, orc.lo, &all);
+        }
+        OpenOut::Err(k) => cx.out.fail(format!("C04 seglog open failed after a recovery whose unlinks were lost: {k}: {line}")),
+        OpenOut::Panic => cx.out.fail(format!("C04 seglog open panicked: {line}")),
+    }
+    cx.out.nontrivial(&format!("reprobe:{}:{}", removed_tail.len(), back));
 }
 
 /// malformed / unusual images and ranges on a copy: the model must predict the verdict
